@@ -17,7 +17,17 @@ CLAUSE_EXTRA = (" (RF-WIDTH) every product with the sampling rate that feeds a s
                 "type; (RF-REGION) abstract interpretation of _vbi_sampling_par_valid_log over input regions: with interlaced "
                 "data and field line counts that differ (or are both zero), and with zero bytes per line, the function cannot "
                 "return TRUE (the decoder steps through both fields at twice the line pitch, so unequal counts read past the image).")
-CLAUSE = CLAUSE + CLAUSE_EXTRA
+CLAUSE = CLAUSE + CLAUSE_EXTRA + (" (RF-IVL/RF-CUR) every subscript of a constant-size array and every dereference through a "
+                                    "tracked pointer cursor in raw_decoder.c, bit_slicer.c, decoder.c and sampling_par.c is in bounds "
+                                    "under the function's guards (named trusted sites excepted, listed in the evidence).")
+SWEEP_TRUSTED = {
+    "RF-IVL:find_service_par:_vbi_service_table[local]": "the loop ends at the table's terminator entry (id == 0), which the initialiser supplies",
+    "RF-CUR:decode_pattern:jobs": "pattern entries are job numbers 1 ... n_jobs written by add_job_to_pattern (job index + 1)",
+    "RF-CUR:vbi3_raw_decoder_add_services:jobs": "job = jobs + j, and `j >= _VBI3_RAW_DECODER_MAX_JOBS` breaks before job is used",
+    "RF-IVL:vbi3_raw_decoder_remove_services:jobs[n_jobs]": "CLEAR (rd->jobs[rd->n_jobs]) follows --rd->n_jobs inside `while (job_num < rd->n_jobs)`: "
+                                                             "n_jobs was at least 1 and at most 8 (job slots are only taken below MAX_JOBS)",
+    "RF-IVL:vbi3_raw_decoder_sampling_point:points[local]": "nth_bit < n_points, which the slicer wrote through its out-parameter bounded by max_points = 512",
+}
 NOT_DECIDED = ("whether the search limit is arithmetically sufficient (8.8 fixed-point phase/step arithmetic, the low-pass slicer's "
                "16-sample window, reads of r + bpp at the last payload bit): a relational numeric fact, outside static analysis "
                "without a solver; reads of the image as such (values).")
@@ -37,7 +47,8 @@ def run(ctx, run):
     _wide_products(ctx, run)
     _validity_regions(ctx, run)
     _admission(ctx, run)
-
+    from .. import sweep
+    sweep.run(ctx, run, ["src/raw_decoder.c", "src/bit_slicer.c", "src/decoder.c", "src/sampling_par.c"], SWEEP_TRUSTED, 110, 1)
 
 def _output_capacity(ctx, run, f, dp):
     run.touch(f)
